@@ -734,6 +734,12 @@ def fixed_cases():
     out.append(dict(kind="discover", tree=CLI_TREE, cwd="top", cwd_kind="cli", targets=["proj"], labels=["cli"], recursive=True, x=DEFAULT_X, cfg=None, via="cli", ini="latest,contest.py"))
     out.append(dict(kind="discover", tree=CLI_TREE, cwd="top", cwd_kind="cli", targets=["proj", "proj/pkg/c.txt"], labels=["cli", "cli"], recursive=False, x=DEFAULT_X, cfg=None, via="cli"))
     out.append(dict(kind="discover", tree=CLI_TREE, cwd="top/proj", cwd_kind="cli", targets=["pkg", "setup.py"], labels=["cli", "cli"], recursive=True, x="pkg/tests", cfg=None, via="cli"))
+    # names and exclude entries that contain a blank (an entry is ONE pattern up to the next comma: seeded change C11-m3 re-split the -x value on whitespace in main())
+    blank_tree = {"legacy code": {"d": {"old.py": "f", "deep": {"d": {"older.py": "f"}}}}, "app.py": "f", "build": {"d": {"gen.py": "f"}}, "my pkg": {"d": {"mod.py": "f", "notes.txt": "f"}}}
+    for via in ("cli", "api"):
+        for x in ("*/legacy code/*,*/build/*", "*/legacy code/*", "my pkg", "*/my pkg/mod.py,build"):
+            out.append(dict(kind="discover", tree=blank_tree, cwd="top", cwd_kind="cli" if via == "cli" else "parent", targets=["proj"], labels=["relative"], recursive=True, x=x, cfg=None, via=via))
+    out.append(dict(kind="discover", tree=blank_tree, cwd="top", cwd_kind="cli", targets=["proj"], labels=["cli"], recursive=True, x=DEFAULT_X, cfg=None, via="cli", ini="*/legacy code/*,*/build/*"))
     return out
 
 
